@@ -370,3 +370,241 @@ def c10_6(I, shape):
     if ok:
         I.check(seq_eq(cv.signature, key.sig),
                 "certificate-verify-carries-the-verified-signature")
+
+
+# ---------------------------------------------------------------------------
+# C10.7  RSA PKCS#1 v1.5 signature verification is exact
+# ---------------------------------------------------------------------------
+import tlslite.utils.rsakey as rk
+import tlslite.utils.cryptomath as cryptomath
+from tlslite.utils.rsakey import RSAKey
+from symx.core import mk_bytearray, sym_from_bytes, PathAbort, Unsupported
+from symx.shims import sym_int_to_bytes
+
+
+def _ident107(x):
+    return x
+
+
+def _tripwire107(n):
+    raise AssertionError("randomness consulted by verify()")
+
+
+def _proxies107(shape):
+    return ([(rk, "bytearray", mk_bytearray),
+             (cryptomath, "bytearray", mk_bytearray),
+             (cryptomath, "bytes_to_int", sym_from_bytes),
+             (cryptomath, "int_to_bytes", sym_int_to_bytes),
+             (cryptomath, "compatHMAC", _ident107),
+             (cryptomath, "compat26Str", _ident107)],
+            [(rk, "getRandomBytes", _tripwire107)])
+
+
+class PubStub(RSAKey):
+    """RSAKey whose public operation returns an arbitrary integer < n: the
+    obligation quantifies over what a signature 'decrypts' to"""
+
+    def __init__(self, k, em_int, key_type="rsa"):
+        self.n = (1 << (8 * k)) - 159
+        self.e = 65537
+        self.key_type = key_type
+        self._em = em_int
+        self.calls = 0
+
+    def hasPrivateKey(self):
+        return False
+
+    def _rawPublicKeyOp(self, c):
+        self.calls += 1
+        return self._em
+
+
+# RFC 8017 section 9.2 note 1: DER DigestInfo prefixes
+DIGESTINFO = {
+    "md5": (bytes.fromhex("3020300c06082a864886f70d020505000410"), 16),
+    "sha1": (bytes.fromhex("3021300906052b0e03021a05000414"), 20),
+    "sha224": (bytes.fromhex("302d300d06096086480165030402040500041c"), 28),
+    "sha256": (bytes.fromhex("3031300d060960864801650304020105000420"), 32),
+    "sha384": (bytes.fromhex("3041300d060960864801650304020205000430"), 48),
+    "sha512": (bytes.fromhex("3051300d060960864801650304020305000440"), 64),
+}
+SHA1_NO_NULL = bytes.fromhex("301f300706052b0e03021a0414")
+
+
+def _shapes_c10_7(tier):
+    out = []
+    for alg in sorted(DIGESTINFO):
+        pre, hl = DIGESTINFO[alg]
+        t = len(pre) + hl
+        for k in ((t + 11, 128) if tier == "quick"
+                  else (t + 11, t + 12, 96 if t + 11 < 96 else t + 20, 128,
+                        256)):
+            out.append(dict(alg=alg, k=k))
+    out.append(dict(alg=None, k=64, raw=36))        # TLS <= 1.1: MD5||SHA1
+    out.append(dict(alg="sha256", k=128, wrong_len=127))
+    out.append(dict(alg="sha256", k=128, wrong_len=129))
+    out.append(dict(alg="sha256", k=128, too_big=True))
+    out.append(dict(alg="sha256", k=128, key_type="rsa-pss"))
+    return out
+
+
+@obligation("C10.7", _shapes_c10_7,
+            functions=["tlslite.utils.rsakey:RSAKey.verify",
+                       "tlslite.utils.rsakey:RSAKey._raw_pkcs1_verify",
+                       "tlslite.utils.rsakey:RSAKey._raw_public_key_op_bytes",
+                       "tlslite.utils.rsakey:RSAKey._addPKCS1Padding",
+                       "tlslite.utils.rsakey:RSAKey.addPKCS1Prefix",
+                       "tlslite.utils.rsakey:RSAKey.addPKCS1SHA1Prefix"],
+            assumes=["the public-key operation returns an arbitrary symbolic "
+                     "integer EM < n (k-byte modulus); signature bytes and "
+                     "digest symbolic; reference: EMSA-PKCS1-v1_5 (RFC 8017 "
+                     "9.2) written out: 00 01 FF..FF 00 DigestInfo || H with "
+                     "at least 8 bytes of FF; SHA-1 also without the NULL "
+                     "parameter (accepted on purpose by the library)",
+                     "moduli from tLen+11 bytes up to 256 bytes"],
+            patches=_proxies107, max_paths=2000, timeout=(600, 1800),
+            also=("C05",))
+def c10_7(I, shape):
+    """verify() accepts exactly the signatures whose encoded message is the
+    full-length EMSA-PKCS1-v1_5 encoding of this digest with this hash's
+    DigestInfo - no shorter padding, no trailing garbage, no other hash id;
+    wrong-length or out-of-range signatures and PKCS#1 v1.5 on an RSA-PSS key
+    are refused"""
+    k = shape["k"]
+    alg = shape["alg"]
+    hl = shape.get("raw") or DIGESTINFO[alg][1]
+    slen = shape.get("wrong_len", k)
+    em = I.bytes(k, "em")
+    sig = I.bytes(slen, "sig")
+    h = I.bytes(hl, "digest")
+    n = (1 << (8 * k)) - 159
+    em_int = sym_from_bytes(list(em)) if not is_concrete_mode() \
+        else int.from_bytes(bytes(em), 'big')
+    assume(em_int < n)
+    key = PubStub(k, em_int, shape.get("key_type", "rsa"))
+    if slen == k:
+        s_int = sym_from_bytes(list(sig)) if not is_concrete_mode() \
+            else int.from_bytes(bytes(sig), 'big')
+        if shape.get("too_big"):
+            assume(s_int >= n)
+        else:
+            assume(s_int < n)
+    try:
+        res = key.verify(newbuf(list(sig)), newbuf(list(h)), "pkcs1", alg)
+    except (PathAbort, Unsupported):
+        raise
+    except Exception as e:
+        I.fail("verify raised %s" % type(e).__name__, detail=repr(e)[:200])
+        return
+    if slen != k or shape.get("too_big") or \
+            shape.get("key_type") == "rsa-pss":
+        I.check(NOT(res), "malformed-signature-or-wrong-key-type-refused")
+        return
+
+    def enc(prefix):
+        t = list(prefix) + list(h)
+        return [0, 1] + [0xff] * (k - 3 - len(t)) + [0] + t
+    if alg is None:
+        good = seq_eq(list(em), enc(b""))
+    elif alg == "sha1":
+        good = OR(seq_eq(list(em), enc(DIGESTINFO["sha1"][0])),
+                  seq_eq(list(em), enc(SHA1_NO_NULL)))
+    else:
+        good = seq_eq(list(em), enc(DIGESTINFO[alg][0]))
+    I.check(IFF(res, good), "accepts-exactly-the-emsa-pkcs1-v1_5-encoding")
+    I.check(key.calls >= 1, "public-operation-was-used")
+
+
+# ---------------------------------------------------------------------------
+# C10.8  RSASSA-PSS verification is exact
+# ---------------------------------------------------------------------------
+from models.hashmodel import HASHLIB, hash_bytes, HASH_ASSUMES, SIZES
+
+
+def _proxies108(shape):
+    return ([(rk, "bytearray", mk_bytearray),
+             (cryptomath, "bytearray", mk_bytearray),
+             (cryptomath, "bytes_to_int", sym_from_bytes),
+             (cryptomath, "int_to_bytes", sym_int_to_bytes),
+             (cryptomath, "compatHMAC", _ident107),
+             (cryptomath, "compat26Str", _ident107)],
+            [(rk, "hashlib", HASHLIB), (cryptomath, "hashlib", HASHLIB)])
+
+
+def _shapes_c10_8(tier):
+    out = []
+    for alg in ("sha256", "sha384") if tier == "quick" else \
+            ("sha1", "sha256", "sha384", "sha512"):
+        hl = SIZES[alg][0]
+        for slen in (hl, 0) if tier == "quick" else (hl, 0, 1, hl - 1):
+            for slack in (0, 3) if tier == "quick" else (0, 1, 3, 17):
+                out.append(dict(alg=alg, slen=slen,
+                                k=hl + slen + 2 + slack))
+    out.append(dict(alg="sha256", slen=32, k=65))       # emLen too short
+    return out
+
+
+def ref_mgf1(alg, seed, n):
+    out = []
+    c = 0
+    while len(out) < n:
+        out += list(hash_bytes(alg, list(seed) +
+                               [(c >> 24) & 0xff, (c >> 16) & 0xff,
+                                (c >> 8) & 0xff, c & 0xff]))
+        c += 1
+    return out[:n]
+
+
+@obligation("C10.8", _shapes_c10_8,
+            functions=["tlslite.utils.rsakey:RSAKey.verify",
+                       "tlslite.utils.rsakey:RSAKey.RSASSA_PSS_verify",
+                       "tlslite.utils.rsakey:RSAKey.EMSA_PSS_verify",
+                       "tlslite.utils.rsakey:RSAKey.MGF1"],
+            assumes=HASH_ASSUMES + [
+                "the public-key operation returns an arbitrary symbolic "
+                "integer EM < n (k-byte modulus, emBits = 8k - 1); message "
+                "hash symbolic; reference: RFC 8017 section 9.1.2 written "
+                "out over the same hash model (MGF1 with that hash)"],
+            patches=_proxies108, max_paths=4000, timeout=(600, 1800),
+            also=("C05",))
+def c10_8(I, shape):
+    """verify(padding='pss') accepts exactly the encoded messages that RFC
+    8017 9.1.2 accepts for this hash, salt length and modulus size"""
+    alg, slen, k = shape["alg"], shape["slen"], shape["k"]
+    hl = SIZES[alg][0]
+    em = I.bytes(k, "em")
+    sig = I.bytes(k, "sig")
+    mh = I.bytes(hl, "mhash")
+    n = (1 << (8 * k)) - 159
+    em_int = sym_from_bytes(list(em)) if not is_concrete_mode() \
+        else int.from_bytes(bytes(em), 'big')
+    s_int = sym_from_bytes(list(sig)) if not is_concrete_mode() \
+        else int.from_bytes(bytes(sig), 'big')
+    assume(em_int < n)
+    assume(s_int < n)
+    key = PubStub(k, em_int)
+    try:
+        res = key.verify(newbuf(list(sig)), newbuf(list(mh)), "pss", alg,
+                         slen)
+    except (PathAbort, Unsupported):
+        raise
+    except Exception as e:
+        I.fail("verify raised %s" % type(e).__name__, detail=repr(e)[:200])
+        return
+    E = list(em)
+    emlen = k
+    if emlen < hl + slen + 2:
+        I.check(NOT(res), "too-short-modulus-refused")
+        return
+    masked = E[:emlen - hl - 1]
+    H = E[emlen - hl - 1:emlen - 1]
+    dbmask = ref_mgf1(alg, H, emlen - hl - 1)
+    db = [a ^ b for a, b in zip(masked, dbmask)]
+    db[0] = db[0] & 0x7f
+    pslen = emlen - hl - slen - 2
+    salt = db[len(db) - slen:] if slen else []
+    h2 = list(hash_bytes(alg, [0] * 8 + list(mh) + salt))
+    good = AND(E[-1] == 0xbc, (masked[0] & 0x80) == 0,
+               AND([x == 0 for x in db[:pslen]]) if pslen else True,
+               db[pslen] == 1, seq_eq(H, h2))
+    I.check(IFF(res, good), "accepts-exactly-what-rfc8017-9.1.2-accepts")
